@@ -257,6 +257,17 @@ class C17(Check):
                             sig, det = 'rotation_matrix/minus-theta-not-transpose', float(np.abs(minus - m.T).max())
                         elif np.abs(one - m).max() > TOL_ROT:
                             sig, det = 'rotation_matrix/depends-on-axis-length', float(np.abs(one - m).max())
+                        elif case['norm'] == 1.0 and all(float(x).is_integer() for x in case['axis']):
+                            # the same direction given with INTEGER components (an integer array, a list of ints)
+                            try:
+                                ia_ = [int(x) for x in case['axis']]
+                                for form, ax in (('int-array', np.array(ia_, dtype=np.int64)), ('int-list', ia_)):
+                                    mi = np.array(rotation_matrix(ax, th), float)
+                                    if not np.abs(mi - m).max() <= TOL_ROT:
+                                        sig, det = 'rotation_matrix/integer-typed-axis-differs', (form, float(np.abs(mi - m).max()))
+                                        break
+                            except Exception as exc:
+                                sig, det = 'rotation_matrix/exception', 'integer-typed axis: ' + repr(exc)
                 R.case(d, nontrivial=th != 0.0, cls=f"rot/norm{case['norm']:g}",
                        outcome='identity' if np.array_equal(m, eye) else 'rotation')
                 if sig:
